@@ -21,14 +21,11 @@ import (
 	"math/rand"
 	"os"
 	"path/filepath"
-	"runtime"
-	"sync"
 	"time"
 
 	"github.com/tendermint/tendermint/consensus"
 	"github.com/tendermint/tendermint/libs/autofile"
 	"github.com/tendermint/tendermint/types"
-
 )
 
 const bufioSize = 4096 * 10
@@ -420,4 +417,3 @@ func runRawCase(c vctx, idx int, base string) {
 		c.Distinct("rawgroup", idx, i, n)
 	}
 }
-
